@@ -45,6 +45,8 @@ type knownFile struct {
 
 var verifDir string
 
+var debugHooks = map[string]func(c *Ctx){}
+
 func main() {
 	repo := flag.String("repo", "/repo", "repository to analyse")
 	vdir := flag.String("verif", "", "verif directory (default: parent of the executable's dir)")
@@ -54,6 +56,15 @@ func main() {
 	verbose := flag.Bool("v", false, "print every obligation")
 	dump := flag.String("dump", "", "debug: pkg:Type.Method or pkg:Func to interpret symbolically and dump paths")
 	flag.Parse()
+	if h, ok := debugHooks[*dump]; ok {
+		c, err := load(*repo, loadCfg{Name: "default"})
+		if err != nil {
+			fmt.Println(err)
+			return
+		}
+		h(c)
+		return
+	}
 	if *dump == "emitspec" {
 		dumpEmitSpec(*repo)
 		return
@@ -459,4 +470,14 @@ func dumpEmitSpec(repo string) {
 		fmt.Println("\t}")
 	}
 	fmt.Println("}")
+}
+
+func init() {
+	debugHooks["analyzename"] = func(c *Ctx) {
+		got, und := analyzeNamePaths(c)
+		for _, g := range got {
+			fmt.Printf("\t%q,\n", g)
+		}
+		fmt.Println(und)
+	}
 }
